@@ -488,6 +488,15 @@ func structuralOffsets(raw []byte) []int {
 	return out
 }
 
+// uvarints for 2^31−1, 2^31, 2^32−1, 2^32, 32 MiB + 1, 2^62, 2^63−1, 2^63, 2^64−1, and two that overflow 64 bits
+var hostileVarints = [][]byte{
+	{0xff, 0xff, 0xff, 0xff, 0x07}, {0x80, 0x80, 0x80, 0x80, 0x08}, {0xff, 0xff, 0xff, 0xff, 0x0f}, {0x80, 0x80, 0x80, 0x80, 0x10},
+	{0x81, 0x80, 0x80, 0x10},
+	{0x80, 0x80, 0x80, 0x80, 0x80, 0x80, 0x80, 0x80, 0x40}, {0xff, 0xff, 0xff, 0xff, 0xff, 0xff, 0xff, 0xff, 0x7f},
+	{0x80, 0x80, 0x80, 0x80, 0x80, 0x80, 0x80, 0x80, 0x80, 0x01}, {0xff, 0xff, 0xff, 0xff, 0xff, 0xff, 0xff, 0xff, 0xff, 0x01},
+	{0xff, 0xff, 0xff, 0xff, 0xff, 0xff, 0xff, 0xff, 0xff, 0x02}, {0x80, 0x80, 0x80, 0x80, 0x80, 0x80, 0x80, 0x80, 0x80, 0x80, 0x01},
+}
+
 func runContainerStream(c *ctx) error {
 	formats := []string{"car", "carb64", "cbor", "cborb64"}
 	emitRead := func(format, ending string, b []byte, variant, class string) {
@@ -582,6 +591,12 @@ func runContainerStream(c *ctx) error {
 					// zero-length section, huge declared length
 					emitRead(f, "eof", enc(append(append([]byte(nil), raw...), 0x00)), "bytes", "zero-section")
 					emitRead(f, "eof", enc(append(append([]byte(nil), raw...), 0xff, 0xff, 0xff, 0xff, 0x7f)), "bytes", "huge-section")
+					// declared lengths around every width a signed/unsigned conversion could get wrong, after a valid
+					// container and in place of the header
+					for _, hv := range hostileVarints {
+						emitRead(f, "eof", enc(append(append(append([]byte(nil), raw...), hv...), 1, 2, 3)), []string{"bytes", "stream1"}[len(hv)%2], "hostile-length")
+						emitRead(f, "eof", enc(append(append([]byte(nil), hv...), raw...)), "bytes", "hostile-length")
+					}
 				}
 			}
 			// truncation and read faults at every offset
